@@ -336,6 +336,8 @@ def check(run: Run) -> None:
     check_dict_typing(run, TermCtx(m, max_depth=1, opaque={"lookup_type", "remap_by_types"}), m, tt, "C08.R7")
     check_iterable_test(run, m, "C08.R12")
     check_mro_walk(run, m, "C08.R14")
+    check_typing_swap(run, m, "C08.R17")
+    check_dataclass_members(run, m, tt, "C08.R18")
     # "rejects a non-boolean filter with ValueError" - also at depth: nothing on the way may catch it
     from .c10 import check_refusals_propagate
 
@@ -811,3 +813,53 @@ def check_mro_walk(run: Run, m, rule: str) -> None:
                         knows = True  # this class's own attribute (not the one remembered from earlier classes)
             run.check(knows, rule, fi, r, "the walk ends at a class whose attribute is there and differs", "the walk over the MRO ends at the first class whose attribute is not the method found so far - including a class that has no such attribute at all (a mixin, typing.Generic): for class JetColl(Named, Coll[Jet]) the 'defining class' of get() is reported as JetColl, its type variable T is resolved at the wrong class, and e.a().get() is typed Any instead of Jet", "if m is None: continue", key="MRO walk ended by a class without the attribute")
     run.floor(rule, n, 1, "early returns of the MRO walk")
+
+
+def check_typing_swap(run: Run, m, rule: str) -> None:
+    """get_inherited re-parameterises the base a class inherits from. For the collections.abc interfaces it goes back to
+    the typing alias of the same name (needed before python 3.11) - by *name*. A user's own generic class that happens
+    to be called Collection, Sequence, Container, Set, List, Type .. is then swapped for typing's, and everything
+    declared on it is lost (methods typed Any). The swap must know that the base comes from collections.abc."""
+    from ..lib import unit
+
+    run.rule(rule, "a base class is replaced by the typing alias of the same name only when it is a collections.abc class")
+    gi = m.find_func("get_inherited", in_module="func_adl.util_types")
+    n = 0
+    for f in unit(m, gi):
+        fa = TermCtx(m, max_depth=1).analysis(f)
+        for x in own_nodes(f):
+            if isinstance(x, ast.Subscript) and isinstance(x.ctx, ast.Load) and ast.unparse(x.value) in ("typing.__dict__", "vars(typing)") or (isinstance(x, ast.Call) and isinstance(x.func, ast.Name) and x.func.id == "getattr" and x.args and ast.unparse(x.args[0]) == "typing" and len(x.args) >= 2 and not isinstance(x.args[1], ast.Constant)):
+                n += 1
+                known = False
+                for a, pol in Facts(fa, x).atoms:
+                    if pol and isinstance(a, ast.Compare) and len(a.ops) == 1 and any(isinstance(y, ast.Attribute) and y.attr == "__module__" for y in ast.walk(a.left)):
+                        c0 = a.comparators[0]
+                        vals = [c0.value] if isinstance(c0, ast.Constant) else [e_.value for e_ in getattr(c0, "elts", []) if isinstance(e_, ast.Constant)]
+                        if vals and all(v in ("collections.abc", "typing", "_collections_abc") for v in vals):
+                            known = True
+                run.check(known, rule, f, stmt_of(x), "the swap is made for collections.abc classes only", "a generic base class is replaced by the entry of the typing module that has the same *name*, whatever the class is: a user's own class Collection(Generic[T]) / Sequence / Container / Set .. becomes typing.Collection, the methods it declares are no longer found and calls on JetColl[Jet] are typed Any", "if r_base.__module__ == 'collections.abc' and r_base.__name__ in typing.__dict__", key="base class swapped for a typing alias by name")
+    run.floor(rule, n, 1, "look-ups of a typing alias by name in get_inherited")
+
+
+def check_dataclass_members(run: Run, m, tt, rule: str) -> None:
+    """An attribute of a dataclass-typed value that is not one of its *fields* may still be something the class defines - a
+    method, a property, a class constant. Only a name the class does not have at all is the designed refusal ("key not
+    found"); refusing every non-field makes e.eta() on a dataclass with methods a ValueError instead of a float."""
+    from ..lib import view
+
+    run.rule(rule, "an attribute of a dataclass-typed value is refused only when the class has no such attribute at all (methods and class-level names are not fields, and not errors)")
+    va = tt.methods.get("visit_Attribute")
+    if va is None:
+        raise AnalysisError("anchor vanished: type_transformer.visit_Attribute")
+    va = view(m, va)
+    fa = TermCtx(m, max_depth=1, opaque={"lookup_type"}).analysis(va)
+    n = 0
+    for r in [x for x in own_nodes(va) if isinstance(x, ast.Raise)]:
+        atoms = Facts(fa, r).atoms
+        in_dc = any(pol and isinstance(a, ast.Call) and isinstance(a.func, ast.Name) and a.func.id == "is_dataclass" for a, pol in atoms)
+        if not in_dc:
+            continue
+        n += 1
+        no_attr = any((not pol) and isinstance(a, ast.Call) and isinstance(a.func, ast.Name) and a.func.id == "hasattr" and len(a.args) == 2 for a, pol in atoms)
+        run.check(no_attr, rule, va, r, "the refusal is made only when the class has no attribute of that name", "every attribute of a dataclass-typed value that is not a *field* is refused as a missing key - also a method the dataclass defines: for @dataclass class DC: x: float; def eta(self) -> float, the call e.eta() raises ValueError('Key eta not found in dataclass') instead of being typed float and normalised", "if hasattr(dc, node.attr): return t_node  # a method, not a field", key="methods of a dataclass refused as missing keys")
+    run.floor(rule, n, 1, "refusals in the dataclass branch of visit_Attribute")
